@@ -17,7 +17,148 @@ func (r *Run) mutInfo(f *types.Func) (MutInfo, bool) {
 		return MutInfo{}, false
 	}
 	mi, ok := mutatorTable[funcName(f)]
-	return mi, ok
+	if ok {
+		return mi, true
+	}
+	return r.derivedMutInfo(f)
+}
+
+// derivedMutInfo: an exported method that is not in the table but writes exactly the receiver
+// state that exactly one replicated table mutator writes (same fields, same kinds of write) is that
+// mutator under another name or signature (constructor-style variant, compare-and-set variant): it
+// inherits the row. Ambiguous or partial matches stay unclassified.
+func (r *Run) derivedMutInfo(f *types.Func) (MutInfo, bool) {
+	if r.derivedMut == nil {
+		r.derivedMut = map[*types.Func]*MutInfo{}
+	}
+	if mi, done := r.derivedMut[f]; done {
+		if mi == nil {
+			return MutInfo{}, false
+		}
+		return *mi, true
+	}
+	r.derivedMut[f] = nil
+	def := r.P.Funcs[f]
+	if def == nil || def.Recv == nil || !f.Exported() || !isRepoPkg(f.Pkg()) {
+		return MutInfo{}, false
+	}
+	sig := r.writeSig(def, 0)
+	if sig == "" {
+		return MutInfo{}, false
+	}
+	var match []string
+	for name, row := range mutatorTable {
+		if row.Relay == "" && row.Cascade == "" {
+			continue
+		}
+		tf := r.P.FuncByName(name)
+		if tf == nil || tf.Obj == nil || tf.Obj.Pkg() != f.Pkg() {
+			continue
+		}
+		if r.writeSig(tf, 0) == sig {
+			match = append(match, name)
+		}
+	}
+	if len(match) != 1 {
+		return MutInfo{}, false
+	}
+	mi := mutatorTable[match[0]]
+	r.derivedMut[f] = &mi
+	r.Notes = append(r.Notes, fmt.Sprintf("derived mutator: %s writes the same receiver state as %s (%s) and is treated as that row of the mutator table", funcName(f), match[0], sig))
+	return mi, true
+}
+
+// writeSig: which receiver fields a method writes and how ("entities:store", "entities:delete",
+// "pose:set"), looking through unexported methods of the same receiver (depth 2). Initialising a
+// nil map with make() does not count.
+func (r *Run) writeSig(fn *Func, depth int) string {
+	set := map[string]bool{}
+	r.collectWrites(fn, depth, set)
+	var out []string
+	for k := range set {
+		out = append(out, k)
+	}
+	sort.Strings(out)
+	return strings.Join(out, ",")
+}
+
+func (r *Run) collectWrites(fn *Func, depth int, set map[string]bool) {
+	if fn == nil || fn.Recv == nil || depth > 2 {
+		return
+	}
+	info := fn.Info()
+	fieldOf := func(x ast.Expr) *types.Var {
+		for {
+			switch v := ast.Unparen(x).(type) {
+			case *ast.IndexExpr:
+				x = v.X
+			case *ast.StarExpr:
+				x = v.X
+			case *ast.SelectorExpr:
+				if id, ok := ast.Unparen(v.X).(*ast.Ident); ok && info.Uses[id] == fn.Recv {
+					if sel := info.Selections[v]; sel != nil {
+						if fv, ok := sel.Obj().(*types.Var); ok && fv.IsField() {
+							return fv
+						}
+					}
+					return nil
+				}
+				x = v.X
+			default:
+				return nil
+			}
+		}
+	}
+	isMake := func(x ast.Expr) bool {
+		if call, ok := ast.Unparen(x).(*ast.CallExpr); ok {
+			if b, ok := calleeObj(info, call).(*types.Builtin); ok && b.Name() == "make" {
+				return true
+			}
+		}
+		if cl, ok := ast.Unparen(x).(*ast.CompositeLit); ok && len(cl.Elts) == 0 {
+			return true
+		}
+		return false
+	}
+	ast.Inspect(fn.Body, func(n ast.Node) bool {
+		switch s := n.(type) {
+		case *ast.FuncLit:
+			return true
+		case *ast.AssignStmt:
+			for k, l := range s.Lhs {
+				fv := fieldOf(l)
+				if fv == nil {
+					continue
+				}
+				if len(s.Rhs) == len(s.Lhs) && isMake(s.Rhs[k]) {
+					continue
+				}
+				kind := "set"
+				if _, isIdx := ast.Unparen(l).(*ast.IndexExpr); isIdx {
+					kind = "store"
+				}
+				set[fv.Name()+":"+kind] = true
+			}
+		case *ast.IncDecStmt:
+			if fv := fieldOf(s.X); fv != nil {
+				set[fv.Name()+":set"] = true
+			}
+		case *ast.CallExpr:
+			if b, ok := calleeObj(info, s).(*types.Builtin); ok && b.Name() == "delete" && len(s.Args) > 0 {
+				if fv := fieldOf(s.Args[0]); fv != nil {
+					set[fv.Name()+":delete"] = true
+				}
+			}
+			if g, ok := calleeObj(info, s).(*types.Func); ok && !g.Exported() && g.Pkg() == fn.Obj.Pkg() {
+				if se, ok := ast.Unparen(s.Fun).(*ast.SelectorExpr); ok {
+					if id, ok := ast.Unparen(se.X).(*ast.Ident); ok && info.Uses[id] == fn.Recv {
+						r.collectWrites(r.P.Funcs[g], depth+1, set)
+					}
+				}
+			}
+		}
+		return true
+	})
 }
 
 // checkMutatorTable: every row resolves to a function of the current tree, and every method of a
@@ -649,4 +790,75 @@ func ruleJoinedGuard(r *Run) {
 		}
 	}
 	r.Floor("J2", "guarded uses of the connection's session/participant", n, 25)
+}
+
+// ruleAcceptedApplies (B8): a request that is answered with its success response has been carried
+// out. Contradiction form, no table: over the accepting paths of one handler (paths that send a
+// response that is not an error), the classes of replicated change performed must agree — a path
+// that answers success but performs none of the changes another accepting path performs accepts
+// a request without applying it (nothing is stored, nothing is relayed, the requester believes
+// otherwise).
+func ruleAcceptedApplies(r *Run) {
+	m := r.M()
+	if r.broken() {
+		return
+	}
+	nHandlers := 0
+	for _, hi := range m.Handlers {
+		fn := hi.Fn
+		paths := r.Paths(fn)
+		type acc struct {
+			path    *Path
+			classes map[string]bool
+		}
+		var accs []acc
+		union := map[string]string{} // class -> mutator seen
+		for pi := range paths {
+			path := &paths[pi]
+			r.at(path)
+			ok, refused := false, false
+			for _, a := range r.answersOn(path) {
+				switch a.Kind {
+				case "response":
+					ok = true
+				case "error":
+					refused = true
+				}
+			}
+			if !ok || refused {
+				continue
+			}
+			cl := map[string]bool{}
+			for _, me := range r.mutEvents(path) {
+				if !me.Direct {
+					continue
+				}
+				mi, _ := r.mutInfo(me.Callee)
+				if mi.Relay == "" || r.isConstruction(path, me) || r.reportedFailure(path, me) {
+					continue
+				}
+				cl[mi.Relay] = true
+				union[mi.Relay] = shortFuncName(me.Callee)
+			}
+			accs = append(accs, acc{path, cl})
+		}
+		if len(union) == 0 {
+			continue
+		}
+		nHandlers++
+		r.Analysed(fn, len(paths))
+		var classes []string
+		for c := range union {
+			classes = append(classes, c)
+		}
+		sort.Strings(classes)
+		for _, a := range accs {
+			r.at(a.path)
+			for _, c := range classes {
+				r.CheckT("B8", fmt.Sprintf("%s:accepted-applies[%s]", fn.Name, c), a.classes[c], fn.Body.Pos(), a.path,
+					"this path answers the request with success but does not perform the change (%s, class %s) that other accepting paths of the handler perform: the request is accepted and not carried out [path %s]", union[c], c, r.pathSig(a.path))
+			}
+		}
+	}
+	r.Floor("B8", "handlers with an accepted replicated change", nHandlers, 7)
 }
